@@ -31,7 +31,8 @@ def gen_case(rng):
                       "extra_int": rng.random() < 0.4})
     case = {"n": n, "bases": bases, "meths": meths,
             "namespace": rng.choice(["", "", "app", "app::model"]),
-            "policy": rng.choice(["debug", "release"])}
+            "policy": rng.choice(["debug", "release"]),
+            "reg_order": rng.sample(range(n), n)}
     # definitions: tuples of classes derived from the parameter classes
     anc = ancestors(case)
     for m in meths:
@@ -113,8 +114,8 @@ def emit(case):
                    "method_class(int, m%d, (%s))>::value, \"generated offsets "
                    "are not picked up\");" % (i, ", ".join(params)))
     out.append("#endif")
-    out.append("register_classes(%s);" % ", ".join("K%d" % c
-                                                   for c in range(n)))
+    out.append("register_classes(%s);" % ", ".join(
+        "K%d" % c for c in case.get("reg_order", range(n))))
     for i, m in enumerate(case["meths"]):
         for d, t in enumerate(m["defs"]):
             params = ["K%d& a%d" % (c, k) for k, c in enumerate(t)]
